@@ -102,6 +102,7 @@ let perr_to_sx (e : Model.perr) : sx =
   | Model.EParameterizedTuple -> A "EParameterizedTuple"
   | Model.ENumericLiteral -> A "ENumericLiteral"
   | Model.EUnsupportedLanguage s -> L [A "EUnsupportedLanguage"; str_to_atom s]
+  | Model.EUnsupportedTypeP s -> L [A "EUnsupportedTypeP"; str_to_atom s]
   | Model.EComplexTupleStruct -> A "EComplexTupleStruct"
   | Model.EMultipleUnnamed -> A "EMultipleUnnamed"
   | Model.ESerdeTagNotAllowed s -> L [A "ESerdeTagNotAllowed"; str_to_atom s]
